@@ -49,10 +49,22 @@ def run_op(rep, h, nproc=None, bounds=None, replay_fn=None):
         if c not in todo:
             todo.append(c)
     confirmed = 0
-    for c in todo:
-        fn = replay_fn or ops.judge_replay
+    fn = replay_fn or ops.judge_replay
+    tried = 0
+    rest = [c for c in h.viol if c not in todo]
+    while todo:
+        c = todo.pop(0)
+        tried += 1
         status, rec = fn(h, c)
         rep.validated += 1
+        if status != "confirmed" and hasattr(h, "replay_variants"):
+            # the symbolic run quantifies over the solver's choices (any optimal model);
+            # a concrete replay fixes one SAT engine - try the other selectable engines
+            for variant in h.replay_variants():
+                status, rec = fn(h, dict(c, variant=variant))
+                rep.validated += 1
+                if status == "confirmed":
+                    break
         if status == "confirmed":
             confirmed += 1
             path = concretise.save_replay(rep.pid, rec)
@@ -60,8 +72,29 @@ def run_op(rep, h, nproc=None, bounds=None, replay_fn=None):
         else:
             rep.unconfirmed.append(dict(harness=h.label, candidate=c, status=status, observed=rec.get("observed"),
                                         expected=rec.get("expected"), real=rec.get("real") if status == "error" else None))
+            if confirmed == 0 and rest and tried < 12:
+                todo.append(rest.pop(0))      # keep looking for a reproducible instance
+    if confirmed == 0 and hasattr(h, "replay_steps"):
+        # last resort for behaviours that depend on WHICH optimal model the SAT engine
+        # returns: all candidates x all usable engines in one real-stack process
+        pairs = [(c, v) for c in h.viol[:40] for v in [None] + list(h.replay_variants())]
+        steps, index = [], []
+        for c, v in pairs:
+            st = h.replay_steps(c, v)
+            index.append((len(steps), len(st)))
+            steps.extend(st)
+        out = concretise.run_real({"atoms": list(ops.CTX.atom_names), "steps": steps}, timeout=900)
+        rep.validated += len(pairs)
+        if "steps" in out:
+            for (c, v), (a, n) in zip(pairs, index):
+                status, rec = h.replay_judge(c, v, out["steps"][a:a + n], steps[a:a + n])
+                if status == "confirmed":
+                    confirmed += 1
+                    path = concretise.save_replay(rep.pid, rec)
+                    rep.violation("%s: code %s, definition says %s" % (h.label, rec.get("observed"), rec.get("expected")), path)
+                    break
     if confirmed == 0:
-        rep.inconclusive.append("%s: %d counterexample candidate(s) from the symbolic run did not reproduce on the real stack (harness/stand-in error?)" % (h.label, len(todo)))
+        rep.inconclusive.append("%s: %d counterexample candidate(s) from the symbolic run did not reproduce on the real stack with any SAT engine tried (harness/stand-in error, or a behaviour no installed engine exhibits)" % (h.label, tried))
     return stats
 
 
